@@ -10,6 +10,9 @@ package props
 // coefficient vector) and 11..251 (sampled); every dealing is written as one ndjson line and FeldmanVSS_Trace.tla must
 // explain every line (outcome of Create, exact result of every Verify / ReConstruct call, property invariants).
 // Real size: the same predicates on secp256k1 and edwards25519, judged by math/big and harness/obs.
+// Signed representatives: ids, secrets and altered ids / share values are integers that stand for residues modulo q; the
+// model's windows (Ids, Secrets, AltMin..AltMax), the sampled toy dealings and the real-size plan all contain negative
+// integers and integers >= q for every class (k-q, k, k+q are one id; -q, 0, q are the inadmissible id).
 // Verdicts come from the real outputs only (c15Run); a line TLC does not explain although the harness found nothing is
 // inconclusive.
 
@@ -358,7 +361,8 @@ func c15RealPlan(ctx *core.Ctx, cv *c15Curve) []c15Scenario {
 	for _, p := range tn {
 		for _, pat := range patterns {
 			for ci, cls := range classes {
-				if r := (k + ci) % len(classes); (!ctx.Thorough() && r != 0) || r >= 3 { // quick: one secret class per (t,n,pattern), thorough: three of the five, rotating
+				// quick: one secret class per (t,n,pattern), thorough: three of the five (two for the signed id patterns), rotating
+				if r := (k + ci) % len(classes); (!ctx.Thorough() && r != 0) || r >= 3 || (r == 2 && (pat == "negative" || pat == "mixed-sign")) {
 					continue
 				}
 				mk(p[0], secretOf(cls), idsFor(pat, p[1]), true, fmt.Sprintf("t=%d,n=%d/%s/secret=%s", p[0], p[1], pat, cls))
@@ -367,7 +371,7 @@ func c15RealPlan(ctx *core.Ctx, cv *c15Curve) []c15Scenario {
 		}
 	}
 	// sampled
-	for i := 0; i < ctx.Pick(6, 120); i++ {
+	for i := 0; i < ctx.Pick(6, 80); i++ {
 		t := 1 + rng.Intn(4)
 		n := t + rng.Intn(7-t)
 		mk(t, rnd(), idsFor(patterns[rng.Intn(len(patterns))], n), i%4 == 0 || !ctx.Thorough(), "sampled")
@@ -715,7 +719,7 @@ func C15(ctx *core.Ctx) error {
 	var realErr error
 	var wgReal sync.WaitGroup
 	wgReal.Add(1)
-	go func() { defer wgReal.Done(); realRes, realErr = c15RunAll(realScs, 6, nil) }()
+	go func() { defer wgReal.Done(); realRes, realErr = c15RunAll(realScs, ctx.Pick(6, 8), nil) }()
 
 	// ---- judge the toy runs, check that the tapes covered the whole coefficient space, build the trace files
 	type agg struct{ verifies, recons, fewer, fewerHits, coinc, degenerate, alias, ok, refused, panics, drift int }
@@ -995,7 +999,7 @@ func C15(ctx *core.Ctx) error {
 	cov.Set("toy_wall_s", toyWall)
 	cov.Set("real_wall_s", realWall)
 	cov.Set("drift_notes", driftNotes)
-	cov.Set("exhaustive", "toy orders of mc_configs: every id set, threshold, secret and coefficient vector; real size: sampled")
+	cov.Set("exhaustive", "toy orders of mc_configs: every id set and secret of the (signed) windows, threshold and coefficient vector; real size: sampled")
 	if len(inconcl) > 0 && len(ctx.Violations()) == 0 {
 		return core.Inconcl("%s", strings.Join(inconcl, "\n  "))
 	}
@@ -1003,7 +1007,7 @@ func C15(ctx *core.Ctx) error {
 		ctx.Note("machinery: %s", s)
 	}
 	return ctx.WriteEvidence("model_checking",
-		"one case = one dealing by the real vss.Create (curve, t, secret, id list, random tape) with the Verify / ReConstruct calls made on it (own ids, every single alteration of id / share / "+
+		"one case = one dealing by the real vss.Create (curve, t, secret, id list, random tape; ids and secrets as signed representatives: negative, canonical and >= q integers) with the Verify / ReConstruct calls made on it (own ids, every single alteration of id / share / "+
 			"one commitment / shape, every non-empty subset); distinct = distinct dealings, non-trivial = dealt (not refused, not degenerate panic). Verdict from the real outputs by independent arithmetic: "+
 			"V_0 = secret*G, commitments = a_k*G for the polynomial through (0,secret) and the shares, degree exactly t, own id verifies, altered id/share/commitment does not, >= t+1 shares give the secret, "+
 			"<= t shares give an error or another value (real size), inadmissible ids are refused without panic. states/transitions: TLC on spec/FeldmanVSS.tla ("+c15Invs+"); "+
